@@ -274,23 +274,28 @@ func (r *kmRun) twice() {
 	kind := []string{"ivf", "pq", "ivfpq"}[rng.Intn(3)]
 	metric := comet.DistanceKind([]string{"l2", "l2_squared", "cosine"}[rng.Intn(3)])
 	dim := 8
+	ntrain := 80
+	nlist := 4
+	if rng.Intn(3) == 0 { // a large training set on one coarse cluster: sub-sampling, if any, must be deterministic too
+		ntrain, nlist = 300+rng.Intn(201), 1
+	}
 	mk := func() comet.VectorIndex {
 		var idx comet.VectorIndex
 		var err error
 		switch kind {
 		case "ivf":
-			idx, err = comet.NewIVFIndex(dim, 4, metric)
+			idx, err = comet.NewIVFIndex(dim, nlist, metric)
 		case "pq":
 			idx, err = comet.NewPQIndex(dim, metric, 2, 4)
 		default:
-			idx, err = comet.NewIVFPQIndex(dim, metric, 4, 2, 4)
+			idx, err = comet.NewIVFPQIndex(dim, metric, nlist, 2, 4)
 		}
 		if err != nil {
 			panic(err)
 		}
 		return idx
 	}
-	train := make([][]float32, 80)
+	train := make([][]float32, ntrain)
 	for i := range train {
 		train[i] = make([]float32, dim)
 		for j := range train[i] {
@@ -325,7 +330,7 @@ func (r *kmRun) twice() {
 		return out
 	}
 	a, b := answers(), answers()
-	r.t.ev("twice", E{"kind": kind, "metric": string(metric), "same": reflect.DeepEqual(a, b)})
+	r.t.ev("twice", E{"kind": kind, "metric": string(metric), "same": reflect.DeepEqual(a, b), "ntrain": ntrain, "nlist": nlist})
 }
 
 // quant: one quantiser call on dyadic components
@@ -375,7 +380,17 @@ func (r *kmRun) quant() {
 	}
 	trained := true
 	var absmax int64
-	if typ == "int8" {
+	via := "train"
+	if typ == "int8" && rng.Intn(3) == 0 {
+		// the trained range set directly (SetAbsMax), on a fresh quantiser or over an earlier training
+		via = "set"
+		if rng.Intn(2) == 0 {
+			via = "train+set"
+			q.Train([][]float32{{float32(rng.Intn(40)) + 0.5}})
+		}
+		absmax = 100*1024 + rng.Int63n(20*1024)
+		q.(*comet.Int8Quantizer).SetAbsMax(float32(float64(absmax) / 1024))
+	} else if typ == "int8" {
 		trained = rng.Intn(6) != 0
 		if trained {
 			extra := []float32{float32(float64(rng.Int63n(100*1024)) / 1024), -0.5}
@@ -405,7 +420,7 @@ func (r *kmRun) quant() {
 	if qerr == nil && derr != nil || qerr != nil && derr == nil { // half-working: rendered as a working untrained / failing trained quantiser
 		ok = !trained
 	}
-	r.t.ev("quant", E{"type": typ, "trained": trained, "ok": ok, "lenSame": len(rec) == len(x), "inputSame": inputSame, "s": s, "x": xi, "rec": ri, "absmax": absmax})
+	r.t.ev("quant", E{"type": typ, "trained": trained, "ok": ok, "lenSame": len(rec) == len(x), "inputSame": inputSame, "s": s, "x": xi, "rec": ri, "absmax": absmax, "via": via})
 }
 
 func drvKMeans(args []string) error {
